@@ -153,6 +153,25 @@ pub fn judge(prop: &str, ctx: &mut Ctx, w: &World, st: &St, hist: &[Op], params:
     if t.outputs.len() > st.m.outputs.len() + 1 {
         ctx.hit("several-change-outputs");
     }
+    let created_outputs: Vec<&ledger::POut> = t.outputs.iter().skip(st.m.outputs.len() + if st.m.mint_and_output { 1 } else { 0 }).collect();
+    if created_outputs.iter().any(|o| o.value.assets.is_empty()) && created_outputs.iter().any(|o| !o.value.assets.is_empty()) {
+        ctx.hit("pure-ada-change-next-to-token-change");
+    }
+    if created_outputs.len() == 1 && created_outputs[0].value.assets.is_empty() {
+        ctx.hit("single-pure-ada-change");
+    }
+    if created_outputs.is_empty() && !bal {
+        ctx.hit("no-change-output(leftover-folded-into-fee-or-exact)");
+    }
+    if t.collateral_return.is_some() {
+        ctx.hit("collateral-return-in-body");
+    }
+    if !t.redeemers.is_empty() {
+        ctx.hit("tx-with-redeemers");
+    }
+    if t.inputs.len() > st.m.inputs.len() {
+        ctx.hit("selection-added-inputs");
+    }
     let extra_outputs = if st.m.mint_and_output { 1 } else { 0 };
     if t.outputs.iter().skip(st.m.outputs.len() + extra_outputs).filter(|o| !o.value.assets.is_empty()).count() >= 2 {
         ctx.hit("token-change-split-over->=2-outputs");
